@@ -444,6 +444,16 @@ def run(out: common.Outcome, explore: int = 0) -> None:
                        "disagreements": {k: v[:5] for k, v in pl["disagreements"].items()}, "first": pl["first"],
                        "coq_failures": pl["coq_failures"][:2]}, no_failing_input=True)
 
+    # ---- leg G: the configuration path (config.sequencer -> otel_to_pv -> sequencer)
+    from . import c08_config
+    import logging
+    logging.disable(logging.CRITICAL)
+    gl = c08_config.leg(out, 30 if out.tier == "quick" else 400) if ok else None
+    if gl:
+        for b in gl["bad"][:2]:
+            out.violation(b)
+        out.coverage["config_leg"] = dict(cases=gl["cases"], with_single_child_type_group=gl["with_single_child_type_group"], rejected=len(gl["bad"]))
+
     def nontrivial(c):
         return any(len(nd["kids"]) >= 2 for nd in all_nodes(c["tree"]))
     keys = {repr((c["tree"], c["async"], sorted(c["gmap"].items()), sorted(c["rules"].items()))) for c in cases if nontrivial(c)}
